@@ -123,6 +123,9 @@ func Close[T any](ch chan T) {
 			return
 		}
 		s.closed[p] = true
+		// keep the closed channel alive until the execution ends: its address must not be
+		// reused by a new channel while the closed flag is recorded for it
+		s.keep = append(s.keep, ch)
 		if s.hb != nil {
 			s.hb.chanClose(s.cur, p)
 		}
